@@ -33,6 +33,7 @@ PANIC_API = [
     (re.compile(r"vec::Vec.*::(remove|insert|swap_remove|drain|split_off)$|VecDeque.*::(swap|insert|split_off|drain|range|range_mut)$"), "vec-op"),
     (re.compile(r"str.*::split_at$|string::String::(remove|insert|insert_str|truncate|drain)$"), "str-op"),
     (re.compile(r"iter::.*::step_by$"), "step_by"),
+    (re.compile(r"btree_map::BTreeMap<.*>::(range|range_mut)$|btree::map::BTreeMap<.*>::(range|range_mut)$|BTreeMap.*::(range|range_mut)$|btree_set::BTreeSet.*::range$"), "btree-range"),
     (re.compile(r"time::Duration::(from_secs_f32|from_secs_f64|mul_f32|mul_f64|div_f32|div_f64)$"), "duration-float"),
 ]
 # operator impls on std types that panic on overflow
@@ -557,9 +558,65 @@ def r5(ctx):
     c06.r9(ctx)
 
 
+def r6(ctx):
+    """Support for the reviewed BTreeMap::range sites: an index range that comes off the wire is ordered. Start-stop headers are
+    constructed only behind Range::from(start, stop)?, which rejects stop < start; the outstation's IndexRange for a READ is built from
+    exactly those header fields."""
+    prog = ctx.prog
+    rf = prog.body("app::parse::range::Range::from")
+    rs = ctx.sym(rf)
+    errs = [(b, e) for b, si, st, e in ret_sites(rf, rs) if e[0] == "agg" and e[2] == "Err"]
+    oks = [(b, e) for b, si, st, e in ret_sites(rf, rs) if e[0] == "agg" and e[2] == "Ok"]
+    inv = g_rel(("Lt", "Gt"), None, None)
+    ctx.check(len(errs) == 1 and len(oks) == 1, "Range::from:shape", "Range::from has one Err and one Ok return", rf.where(line=rf.line))
+    for b, e in oks:
+        ctx.require_guards(rf, b.idx, [("start <= stop", g_rel("Le", ("param", "start").__eq__, ("param", "stop").__eq__))], "Range::from:Ok", "Ok(range)")
+    n = 0
+    for bd in prog.bodies_matching(r"^dnp3::app::parse::"):
+        if "::test" in bd.path:
+            continue
+        for var in ("OneByteStartStop", "TwoByteStartStop"):
+            for b, si, st in agg_sites(bd, r"parser::HeaderDetails$", var):
+                n += 1
+                e = ctx.sym(bd).rvalue_expr(st.rv)
+                a0, a1 = strip_passthrough(agg_field(e, "0")), strip_passthrough(agg_field(e, "1"))
+                ok = ctx.require_guards(bd, b.idx, [("Range::from(start, stop)? succeeded", g_is(lambda x: mentions_call(x, r"range::Range::from$"), "Continue"))], "start-stop-header:%s@%s" % (var, short(bd.path)), "HeaderDetails::%s" % var)
+                froms = [c for c in call_sites(bd, r"range::Range::from$") if bd.block_dominates(c.idx, b.idx)]
+                same = False
+                for c in froms:
+                    ce = ctx.sym(bd).call_expr(c.term)
+                    if strip_passthrough(ce[2][0]) == a0 and strip_passthrough(ce[2][1]) == a1:
+                        same = True
+                ctx.check(same, "start-stop-header:%s@%s:same-operands" % (var, short(bd.path)), "the validated pair is the pair stored in the header", bd.where(b.idx))
+    if n < 2:
+        raise AnchorError("start-stop header constructions: %d" % n)
+    gb = prog.body("database::read::ReadHeader::get_impl")
+    gs = ctx.sym(gb)
+    k = 0
+    for c in call_sites(gb, r"static_db::IndexRange::new$|IndexRange::new$"):
+        e = gs.call_expr(c.term)
+        a0, a1 = strip_passthrough(e[2][0]), strip_passthrough(e[2][1])
+        k += 1
+        ok = a0[0] == "field" and a1[0] == "field" and a0[2] == "0" and a1[2] == "1" and a0[1] == a1[1] and a0[1][0] == "variant" and a0[1][2].endswith("StartStop")
+        ctx.check(ok, "read-range:%d" % k, "IndexRange::new(header.start, header.stop): %s" % expr_str(e)[:90], gb.where(c.idx), bad_detail="the READ range is built as %s: not (start, stop) of one start-stop header" % expr_str(e)[:100])
+    if k < 2:
+        raise AnchorError("ReadHeader::get_impl: IndexRange::new sites %d" % k)
+
+
+def r7(ctx):
+    """'never spins or stalls ... keeps serving': shared with C08.R3 (a fragment that outgrows the receive buffer is discarded and the
+    assembler returns to a consistent state - no later expect() on a tracked size beyond the buffer) and C16.R8 (a peer cannot
+    postpone a response timeout forever by sending fragments that are ignored)."""
+    import c08
+    import c16
+    c08.r3(ctx)
+    c16.r8(ctx)
+
 RULES = [
     ("C01.R1", "T1", "every panic site reachable from a spawned task is auto-discharged or reviewed", r1),
     ("C01.R3", "T8", "the length later unwrapped from the tx buffer is the length written", r3),
     ("C01.R4", "loop-census", "no reachable cycle without exit or await; synchronous non-iterator loops are listed", r4),
     ("C01.R5", "T3", "session end drops all per-connection reader state (reset chain; receive-buffer index discipline)", r5),
+    ("C01.R6", "T2/T8", "index ranges taken from the wire are ordered before they reach BTreeMap::range (supports reviewed sites)", r6),
+    ("C01.R7", "T2/T2-loop", "an oversized or damaged segment stream and ignored fragments cannot wedge a task: assembler overflow discards (C08.R3), response deadlines fixed before the wait loop (C16.R8)", r7),
 ]
